@@ -101,6 +101,17 @@ def rule_checked(P):
                 continue
             lim = LIM[fl[0]]
             checks = [b for b in f.branch_blocks() if mentions(b.term["cond"], lim)]
+            # the comparison may be kept in a local flag and branched on later (`too_long = size > max; ... if (too_long)`): a branch on such a flag is the check
+            flags_ = set()
+            for e2, lh2, op2, rh2 in f.stores():
+                l2 = strip(lh2)
+                if is_e(l2, "var") and l2[2] == "local" and rh2 is not None and mentions(rh2, lim):
+                    flags_.add(l2[1])
+            for e2 in f.elems():
+                if e2.e[0] == "decl" and len(e2.e) > 3 and e2.e[3] is not None and mentions(e2.e[3], lim):
+                    flags_.add(e2.e[1])
+            if flags_:
+                checks += [b for b in f.branch_blocks() if b not in checks and any(is_e(q, "var") and q[1] in flags_ for q in walk(b.term["cond"]))]
             # `req->evcon != NULL && size > evcon->max...`: without a connection there is no limit to enforce; the NULL test that leads into a check is part of it
             nolimit = [b for b in f.branch_blocks() if mentions(b.term["cond"], "evhttp_request.evcon") and not mentions(b.term["cond"], lim)
                        and any(s in [c.id for c in checks] for s, _ in b.succ)]
